@@ -7,6 +7,12 @@ CLAIMED = {
  "C01": dict(technique="property-based round trip (Hypothesis recipes + exhaustively enumerated kind x mask x value core), strict URI-level kind-aware multiset oracle",
              text="Generated-input search: thousands of document recipes per run (every record kind, argument mask, value kind, namespace history, bundle scoping, json.dump option) are written as PROV-JSON, read back and compared with a strict canonical form the library's == cannot provide; an enumerated single-record core is covered exhaustively on every run. Exploration, not proof: a green run means no counterexample among the cases counted in the evidence.",
              note="Trusted: CPython, Hypothesis, stdlib json, the check's own canon() built on public accessors. Documents are bounded (<=16 ops, <=3 bundles, short names).", ref="4 C01"),
+ "C03": dict(technique="stateful property-based testing (Hypothesis RuleBasedStateMachine) against a reference model of namespace intents",
+             text="Model-based generation of namespace histories on a document and up to three bundles from deliberately colliding alphabets; after every step the observed prefix table must be monotone (b), every QualifiedName keeps its URI (a), and on generated print-and-resolve steps every name ever handed out by a scope must re-resolve to its URI (c). Histories shrink as one value and are saved as replay files.",
+             note="Trusted: Hypothesis, the model (intents). Usage discipline of the statement enforced as rule precondition. Histories bounded to 40/50 steps, 4 scopes.", ref="4 C03"),
+ "C04": dict(technique="property-based metamorphic testing: content-preserving transforms and single content-changing edits against a reference relation computed from abstract content",
+             text="Pairs and chains of documents are generated with a known ground truth (same abstract content built differently, or content differing by exactly one edit of 14 kinds, or independent tiny documents); ==, != (both argument orders), reflexivity, transitivity, bundle equality, all record pairs with hash agreement, and prov-compare's exit status are compared with the reference relation.",
+             note="Trusted: the reference relation lossy() (the statement's own identifications: sets, numeric value, instants). prov-compare is run on a sample (subprocess).", ref="4 C04"),
 }
 PENDING_REASON = "check not built yet in this round (design in DESIGN.md section 4); not claimed until the check exists and is quiet on the unchanged tree"
 checks = []
